@@ -830,6 +830,8 @@ pub fn run(ctx: &Ctx) -> Verdict {
     v.subs.push(sub2);
     // usability after a caught user panic
     v.subs.push(vcore::run_enumerated(ctx, "usable-after-caught-panic", usable_table(), |c| check_usable(&worker, c)));
+    // mock-induced panics about calls with long / non-ASCII text arguments must stay catchable
+    v.subs.push(super::text::sub_report(ctx, super::text::Oracle::NoAbort));
     // random repetition (different interleavings with the keeper thread)
     let n = ctx.tier.pick(10_000, 300_000);
     let tab = table();
@@ -839,6 +841,9 @@ pub fn run(ctx: &Ctx) -> Verdict {
 }
 
 pub fn replay(sub: &str, case: Value) -> Result<(), String> {
+    if sub == "text-arguments" {
+        return super::text::replay(case, super::text::Oracle::NoAbort);
+    }
     if sub == "usable-after-caught-panic" {
         let c: UsableCase = serde_json::from_value(case).map_err(|e| format!("HARNESS: bad case: {e}"))?;
         let worker = std::cell::RefCell::new(Worker::new("c11"));
